@@ -277,6 +277,7 @@ macro_rules! from_meta_float {
                 (match *value {
                     Lit::Str(ref s) => Self::from_string(&s.value()),
                     Lit::Float(ref s) => s.base10_parse::<$ty>().map_err(Error::from),
+                    Lit::Int(ref s) => s.base10_parse::<$ty>().map_err(Error::from),
                     _ => Err(Error::unexpected_lit_type(value)),
                 })
                 .map_err(|e| e.with_span(value))
